@@ -3,6 +3,7 @@ package vrt
 import (
 	"context"
 	"fmt"
+	"sort"
 	"testing"
 	"time"
 )
@@ -192,4 +193,82 @@ func BenchmarkExec(b *testing.B) {
 	for i := 0; i < b.N; i++ {
 		oneExec(&o, lostUpdate, nil)
 	}
+}
+
+func chanScenario(r *Run) {
+	ch := make(chan int)
+	done := make(chan struct{})
+	buf := make(chan int, 1)
+	var got []int
+	Go(func() { SendTo(ch).Send(1) })
+	Go(func() { SendTo(ch).Send(2) })
+	Go(func() {
+		for i := 0; i < 2; i++ {
+			got = append(got, Recv(ch))
+		}
+		SendTo(buf).Send(7)
+		Close(done)
+	})
+	c0, c1 := RecvCase(done), RecvCase(buf)
+	switch Select(false, c0, c1) {
+	case 0:
+		r.Outcome("done first")
+	case 1:
+		r.Outcome("buf first %d", c1.V)
+	}
+	Settle()
+	r.Outcome("%v", got)
+}
+
+func mutexScenario(r *Run) {
+	var mu Mutex
+	var order []int
+	var wg WaitGroup
+	for i := 0; i < 3; i++ {
+		i := i
+		wg.Add(1)
+		Go(func() {
+			defer wg.Done()
+			mu.Lock()
+			order = append(order, i)
+			mu.Unlock()
+		})
+	}
+	wg.Wait()
+	r.Outcome("%v", order)
+}
+
+func TestPruneEquivalence(t *testing.T) {
+	for name, sc := range map[string]func(*Run){"chan": chanScenario, "mutex": mutexScenario, "lost": func(r *Run) {
+		var x int32
+		var wg WaitGroup
+		wg.Add(2)
+		for i := 0; i < 2; i++ {
+			Go(func() {
+				defer wg.Done()
+				v := LoadInt32(&x)
+				StoreInt32(&x, v+1)
+			})
+		}
+		wg.Wait()
+		r.Outcome("x=%d", x)
+	}} {
+		for b := 0; b <= 3; b++ {
+			a := Explore(Options{Name: "eq/" + name, Bound: b}, sc)
+			p := Explore(Options{Name: "eq/" + name + "/prune", Bound: b, Prune: true}, sc)
+			if fmt.Sprint(keys(a.Outcomes)) != fmt.Sprint(keys(p.Outcomes)) {
+				t.Fatalf("%s bound %d: outcome sets differ:\n full  %v\n prune %v", name, b, a.Outcomes, p.Outcomes)
+			}
+			t.Logf("%s b=%d: full %d execs, pruned %d execs (%d pruned), outcomes %d", name, b, a.Executions, p.Executions, p.Pruned, len(a.Outcomes))
+		}
+	}
+}
+
+func keys(m map[string]int) []string {
+	var ks []string
+	for k := range m {
+		ks = append(ks, k)
+	}
+	sort.Strings(ks)
+	return ks
 }
